@@ -143,7 +143,7 @@ def len_bounds(fs, centre):
     return lo, hi
 
 
-def run(ck):
+def _run_own(ck):
     facts = ck.facts
     from refs import effects_ref as E
     ck.decided('D1 parallel = sequential by construction: in decompose_graph and try_decompose_by_components the two branches of `if parallel` differ only in into_par_iter vs into_iter and a cloned decomposer as receiver (same source, same recursive call and arguments, same post-processing); no unsafe block, no interior mutability in Decomposer / drivers / graphs',
@@ -364,3 +364,9 @@ def run(ck):
     ck.control('R-SIB-parallel flags a depth that differs between the branches', bool(sites) and sites[0][1]['args'] != sites[0][2]['args'])
     r2, c2_ = reductions(fx['fns']['decompose::Decomposer::prod_arm']['hir'])
     ck.control('R-REDUCE flags a product node reduced with sum', r2 == ['sum'])
+
+
+def run(ck, **kw):
+    _run_own(ck)
+    ck.include('C01', 'every term is simplified before it is decomposed further: rule applications in simplify.rs must be guarded', parts=['D1', 'D2'])
+    ck.include('C07', 'the terms are summed and multiplied in Scalar4 arithmetic (scalar.rs is anchored here too)')
